@@ -1944,6 +1944,22 @@ func (t *FnTrans) modifiesComps(callee *ssa.Function, con *Contract) ([]string, 
 					res = append(res, "F."+typeKey(sty)+"."+su.Field(i).Name()+cd.suffix)
 				}
 			}
+		case strings.HasPrefix(item, "elemsof(") && strings.HasSuffix(item, ")"):
+			var pkg *types.Package
+			if callee.Pkg != nil {
+				pkg = callee.Pkg.Pkg
+			}
+			el := t.W.typeByText(pkg, strings.TrimSpace(item[len("elemsof("):len(item)-1]))
+			if el == nil {
+				return nil, false
+			}
+			cds := t.flatComps(el)
+			if cds == nil {
+				return nil, false
+			}
+			for _, cd := range cds {
+				res = append(res, "B."+t.sortKey(el)+cd.suffix)
+			}
 		case strings.HasPrefix(item, "mapof(") && strings.HasSuffix(item, ")"):
 			pt := pathType(strings.TrimSpace(item[len("mapof(") : len(item)-1]))
 			if pt == nil {
@@ -2268,6 +2284,75 @@ func (t *FnTrans) checkRecvInvClosed() (string, bool) {
 	if pkg == nil {
 		return "no package", false
 	}
+	// A SHALLOW invariant speaks only about fields of T themselves and about
+	// which entries a map/slice field has / how long a field is (an element
+	// may be compared, e.g. with nil, but nothing is read THROUGH an element).  For such an invariant only the functions
+	// that use one of the fields it names matter, and a function that only
+	// reads those fields (load, then look-up / range / len / comparison) cannot
+	// break it.  Any other invariant keeps the strict rule: every function
+	// that touches any field of T proves it or is verified pure.
+	invText := ""
+	for _, c := range t.con.RecvInv {
+		invText += " " + c.Text
+	}
+	shallow := !regexp.MustCompile(`\.\w+\s*\[[^\]]*\]\s*[.\[]`).MatchString(invText) && !strings.Contains(invText, "contents(") && !strings.Contains(invText, "*")
+	mentioned := map[int]bool{}
+	if shallow {
+		for i := 0; i < st.NumFields(); i++ {
+			if regexp.MustCompile(`\.` + st.Field(i).Name() + `\b`).MatchString(invText) {
+				mentioned[i] = true
+			}
+		}
+		if len(mentioned) == 0 {
+			shallow = false
+		}
+	}
+	readOnlyUse := func(fa *ssa.FieldAddr) bool {
+		refs := fa.Referrers()
+		if refs == nil {
+			return false
+		}
+		for _, r := range *refs {
+			switch u := r.(type) {
+			case *ssa.DebugRef:
+			case *ssa.UnOp:
+				if u.Op != token.MUL {
+					return false
+				}
+				if _, basic := u.Type().Underlying().(*types.Basic); basic {
+					continue
+				}
+				vrefs := u.Referrers()
+				if vrefs == nil {
+					return false
+				}
+				for _, vr := range *vrefs {
+					switch w := vr.(type) {
+					case *ssa.DebugRef:
+					case *ssa.Lookup:
+						if w.X != u {
+							return false
+						}
+					case *ssa.Range:
+					case *ssa.BinOp:
+						if w.Op != token.EQL && w.Op != token.NEQ {
+							return false
+						}
+					case *ssa.Call:
+						b, ok := w.Call.Value.(*ssa.Builtin)
+						if !ok || (b.Name() != "len" && b.Name() != "cap") {
+							return false
+						}
+					default:
+						return false
+					}
+				}
+			default:
+				return false
+			}
+		}
+		return true
+	}
 	var tops []*ssa.Function
 	for _, m := range pkg.Members {
 		if f, ok := m.(*ssa.Function); ok {
@@ -2303,7 +2388,28 @@ func (t *FnTrans) checkRecvInvClosed() (string, bool) {
 				if !ok || !types.Identical(xp.Elem(), named) {
 					continue
 				}
+				if shallow && (!mentioned[fa.Field] || readOnlyUse(fa)) {
+					continue
+				}
 				con := t.W.contractFor(top)
+				if con != nil && !con.Assumed && con.Establishes && len(con.RecvInv) == 0 {
+					// a constructor: it may only write fields of objects it
+					// allocated itself, and proves the invariant of its result
+					if _, fresh := fa.X.(*ssa.Alloc); fresh {
+						found := false
+						for _, w := range writers {
+							if w == top.Name() {
+								found = true
+							}
+						}
+						if !found {
+							writers = append(writers, top.Name())
+						}
+						continue
+					}
+					bad = fmt.Sprintf("%s (establishes) writes %s.%s of an object it did not allocate", top.Name(), named.Obj().Name(), st.Field(fa.Field).Name())
+					return
+				}
 				if con == nil || con.Assumed || (len(con.RecvInv) == 0 && !con.Pure) {
 					bad = fmt.Sprintf("%s uses %s.%s and neither proves the invariant nor is verified pure", top.Name(), named.Obj().Name(), st.Field(fa.Field).Name())
 					return
@@ -2337,5 +2443,14 @@ func (t *FnTrans) checkRecvInvClosed() (string, bool) {
 		}
 	}
 	sort.Strings(writers)
+	if shallow {
+		var fs []string
+		for i := 0; i < st.NumFields(); i++ {
+			if mentioned[i] {
+				fs = append(fs, st.Field(i).Name())
+			}
+		}
+		return fmt.Sprintf("closedness checked: all fields of %s are unexported; the invariant is shallow over %s; the functions of its package that use those fields only read them, are verified pure, or are %s, each of which proves the invariant", named.Obj().Name(), strings.Join(fs, ", "), strings.Join(writers, ", ")), true
+	}
 	return fmt.Sprintf("closedness checked: all fields of %s are unexported; the functions of its package that use them are verified pure or are %s, each of which proves the invariant", named.Obj().Name(), strings.Join(writers, ", ")), true
 }
